@@ -419,20 +419,34 @@ impl Sched {
         Ok(self.release(tid))
     }
 
-    /// Ends the schedule: every unfinished thread unwinds from where it is parked (destructors
-    /// run, yield points no longer stop) and its stack is released.
+    /// Ends the schedule.  Threads that have not finished are *abandoned* where they are parked:
+    /// their stacks are reset without running destructors (destructors of the code under test may
+    /// panic — `buggy::bug!` does in debug builds — and a panic while unwinding aborts the
+    /// process).  Whatever such a thread owned is leaked; this only happens in schedules that end
+    /// abnormally (a reported failure, a lost wake-up, a binding self-test).
     pub fn abort_and_join(&self) {
         self.inner.borrow_mut().aborting = true;
-        let n = self.inner.borrow().st.len();
-        for tid in 0..n {
-            let live = self.coros.borrow()[tid].is_some();
-            if live && !self.inner.borrow().st[tid].is_finished() {
-                self.release(tid);
+        let mut coros = std::mem::take(&mut *self.coros.borrow_mut());
+        for (tid, slot) in coros.iter_mut().enumerate() {
+            if let Some(mut co) = slot.take() {
+                if !co.done() {
+                    // SAFETY: the objects on the abandoned stack are deliberately leaked (never
+                    // dropped, never touched again); nothing else refers into that stack.
+                    unsafe { co.force_reset() };
+                    ABANDONED.fetch_add(1, std::sync::atomic::Ordering::Relaxed);
+                }
+                STACKS.with(|p| p.borrow_mut().push(co.into_stack()));
+                let mut g = self.inner.borrow_mut();
+                if !g.st[tid].is_finished() {
+                    g.st[tid] = Status::Done;
+                }
             }
         }
-        self.coros.borrow_mut().clear();
     }
 }
+
+/// Number of threads abandoned by `abort_and_join` in this process.
+pub static ABANDONED: std::sync::atomic::AtomicU64 = std::sync::atomic::AtomicU64::new(0);
 
 impl Drop for Sched {
     fn drop(&mut self) {
